@@ -2043,6 +2043,7 @@ class DynamicSpaceImpl(BaseSpaceImpl):
     ):
         self._dynbase = base
         base._dynamic_subs.append(self)
+        cached_impl = cache._impl if cache else None
         try:
             self._init_root(parent)
             if cache:
@@ -2060,8 +2061,14 @@ class DynamicSpaceImpl(BaseSpaceImpl):
             )
             self._init_cells()
         except BaseException:
-            # A half-built space must not stay registered with its base
+            # A half-built space must not stay registered with its base,
+            # be held by its parent, or revive the handles of the deleted
+            # space it was going to replace
             base._dynamic_subs.remove(self)
+            if dict.get(container, name) is self:
+                container.del_item(name)
+            if cache:
+                cache._impl = cached_impl
             raise
 
     def _init_root(self, parent):
